@@ -439,6 +439,19 @@ def userdata_clones(fb, rep):
                     if not flow.has_call(srcs, lambda x: x.endswith("Cloner::<'t>::deep_clone")):
                         ok_fields = False
                         detail.append("%s is not cloned with the cloner" % fname)
+        # every VM value placed into any aggregate built here comes out of the cloner (enum payloads are
+        # merged by the per-local value flow, so look at each construction separately)
+        for i, j, pl, rv, ln in b.assigns():
+            if rv[0] != "agg" or rv[1][0] != "adt" or rv[1][1].startswith("core::") or rv[1][1].startswith("alloc::"):
+                continue
+            for o in rv[2]:
+                p_ = op_place(o)
+                if p_ is None or p_[1]:
+                    continue
+                if b.local_tstr(p_[0]) in ("gluon_vm::value::Value", "gluon_vm::value::ValueRepr"):
+                    if not flow.has_call(flow.sources(b, o), lambda x: x.endswith("Cloner::<'t>::deep_clone")):
+                        ok_fields = False
+                        detail.append("%s::%s is built from a value that did not pass the cloner" % (rv[1][1].rsplit("::", 1)[1], rv[1][2]))
         if good_alloc and ok_fields:
             rep.ok(R, "%s: values via Cloner::deep_clone, owner = Cloner::thread, allocated in Cloner::gc" % b.id)
         else:
